@@ -80,12 +80,21 @@ def rule_number_text_pitfalls(ctx, rep, rid: str) -> None:
         rep.bad(rid, f"{ts.qual}:{norm(hit[0].func)}(float)", f"to_string formats doubles with the host's {norm(hit[0].func)}(): exponent notation starts at 1e16 instead of 1e21 and is spelled 1e-07 / 1e+21 differently from ECMAScript", f"{vals.rel}:{hit[0].lineno}")
     else:
         rep.ok(rid, f"{ts.qual}:float-formatting")
-    hits = [n for n in tn.own_nodes() if isinstance(n, ast.Call) and norm(n.func) in ("float", "int") and n.args and isinstance(n.args[0], ast.Name)]
-    validated = any(isinstance(n, ast.Call) and (norm(n.func).startswith("re.") or "match" in norm(n.func) or "_NUMERIC" in norm(n)) for n in tn.own_nodes())
-    if hits and not validated:
-        rep.bad(rid, f"{tn.qual}:float(str)/int(str)", "to_number hands script strings to the host's float()/int() without checking the ECMAScript StringNumericLiteral grammar first: 'nan', 'infinity', '1_0' and non-ASCII digits are accepted, and str.strip() trims a different whitespace set", f"{vals.rel}:{hits[0].lineno}")
+    from . import implicit
+
+    implicit._CTX[:] = [ctx]
+    hits = [n for n in tn.own_nodes() if isinstance(n, ast.Call) and norm(n.func) in ("float", "int") and n.args and any(isinstance(x, ast.Name) for x in ast.walk(n.args[0])) and any(pol and "isinstance" in norm(t) and "str" in norm(t) for t, pol in guards_of(n, tn.node))]
+    unchecked = [n for n in hits if not implicit._grammar_checked(n, n.args[0], tn)]
+    if unchecked:
+        rep.bad(rid, f"{tn.qual}:float(str)/int(str)", f"to_number hands script strings to the host's {norm(unchecked[0].func)}() without matching the ECMAScript StringNumericLiteral grammar first ({short(unchecked[0], 40)}): 'nan', 'infinity', '1_0' and non-ASCII digits are accepted", f"{vals.rel}:{unchecked[0].lineno}")
     else:
-        rep.ok(rid, f"{tn.qual}:string-grammar")
+        rep.ok(rid, f"{tn.qual}:string-grammar", {"conversions_checked": len(hits)})
+    # white space: str.strip() without an argument trims the host's set (U+001C..U+001F included)
+    bare = [n for n in tn.own_nodes() if isinstance(n, ast.Call) and isinstance(n.func, ast.Attribute) and n.func.attr == "strip" and not n.args]
+    if bare:
+        rep.bad(rid, f"{tn.qual}:strip()", "to_number trims with str.strip(), whose white-space set differs from ECMAScript's StrWhiteSpace", f"{vals.rel}:{bare[0].lineno}")
+    else:
+        rep.ok(rid, f"{tn.qual}:white-space")
 
 
 def _json_funcs(ctx) -> Tuple[Func, Func, Optional[Func]]:
